@@ -58,6 +58,17 @@ def std_result(ctx, cases, viol, dis, known, stats, nontriv, samples, rule, deps
             "violations": viol[:5], "disagreements": dis, "known": known, "generated_deps": deps, "assumptions": list(assumptions)}
 
 
+def fragment_s_tie(ctx, dis, stats, names):
+    """tie of the translator itself: generated string functions + Base/PyOps primitives vs CPython / the real functions"""
+    import random, strcheck
+    r = strcheck.run(random.Random(ctx.seed * 7919 + 5), 4000 if ctx.tier == "quick" else 60000, names,
+                     prebuilt=(getattr(ctx, "str_ok", False), getattr(ctx, "str_build_output", "")))
+    if not r["ok"]:
+        dis.append({"what": "strdriver (generated string functions) does not build", "build_output": r["build_output"]})
+    dis += r["disagreements"][:5]
+    stats["fragment_S_tie"] = dict(r["stats"], cases=r["cases"], disagreements=len(r["disagreements"]))
+
+
 def known_lines(kf, reproduced):
     out = []
     for f in kf:
